@@ -1,0 +1,131 @@
+//! Verification seams for deterministic simulation.
+//!
+//! This module only exists when the crate is compiled with `--cfg graphql_client_verif`. It is
+//! never part of a normal build. It provides
+//!
+//! * a drop-in replacement for `std::sync::Mutex` that wraps the *real* `std::sync::Mutex` (so
+//!   poisoning behaves exactly as in the shipped code) and reports every lock attempt,
+//!   acquisition and release to a registered simulator, and
+//! * a cooperative yield / fault point for the file reads that happen while a cache lock is held.
+//!
+//! With no simulator registered everything degrades to the plain blocking behaviour.
+
+use std::ops::{Deref, DerefMut};
+use std::path::Path;
+use std::sync::{LockResult, OnceLock, PoisonError, TryLockError};
+
+/// What a simulator has to implement. All methods are called on the thread that performs the
+/// operation; a simulator may block the calling thread for as long as it likes.
+pub trait Sim: Send + Sync {
+    /// The calling thread is about to try to take the mutex `id`. Scheduling point.
+    fn before_lock(&self, id: usize, tag: &'static str);
+    /// `try_lock` found the mutex held by somebody else. The simulator must only return once the
+    /// calling thread should try again.
+    fn blocked(&self, id: usize, tag: &'static str);
+    /// The calling thread now owns the mutex; `poisoned` tells whether it was handed out poisoned.
+    fn acquired(&self, id: usize, tag: &'static str, poisoned: bool);
+    /// The calling thread has released the mutex; `panicking` is true when the guard was dropped
+    /// during unwinding (the release that poisons).
+    fn released(&self, id: usize, tag: &'static str, panicking: bool);
+    /// A yield point at `site` (for instance `read_file.open`). Scheduling point. Returning an
+    /// error makes the operation at `site` fail with it.
+    fn fault_point(&self, site: &'static str, path: &Path) -> Option<std::io::Error>;
+}
+
+static SIM: OnceLock<Box<dyn Sim>> = OnceLock::new();
+
+/// Registers the simulator for this process. Returns false if one was registered already.
+pub fn register(sim: Box<dyn Sim>) -> bool {
+    SIM.set(sim).is_ok()
+}
+
+/// Yield / fault point used by `read_file`.
+pub fn fault_point(site: &'static str, path: &Path) -> Option<std::io::Error> {
+    SIM.get().and_then(|sim| sim.fault_point(site, path))
+}
+
+/// Same interface as the part of `std::sync::Mutex` the crate uses.
+pub struct Mutex<T> {
+    inner: std::sync::Mutex<T>,
+}
+
+impl<T: Default> Default for Mutex<T> {
+    fn default() -> Self {
+        Mutex {
+            inner: Default::default(),
+        }
+    }
+}
+
+impl<T> Mutex<T> {
+    fn id(&self) -> usize {
+        self as *const Self as usize
+    }
+
+    /// See `std::sync::Mutex::lock`.
+    pub fn lock(&self) -> LockResult<MutexGuard<'_, T>> {
+        let sim = match SIM.get() {
+            Some(sim) => sim,
+            None => {
+                return match self.inner.lock() {
+                    Ok(guard) => Ok(self.guard(guard)),
+                    Err(poisoned) => Err(PoisonError::new(self.guard(poisoned.into_inner()))),
+                }
+            }
+        };
+        let (id, tag) = (self.id(), std::any::type_name::<T>());
+        loop {
+            sim.before_lock(id, tag);
+            match self.inner.try_lock() {
+                Ok(guard) => {
+                    sim.acquired(id, tag, false);
+                    return Ok(self.guard(guard));
+                }
+                Err(TryLockError::Poisoned(poisoned)) => {
+                    sim.acquired(id, tag, true);
+                    return Err(PoisonError::new(self.guard(poisoned.into_inner())));
+                }
+                Err(TryLockError::WouldBlock) => sim.blocked(id, tag),
+            }
+        }
+    }
+
+    fn guard<'a>(&'a self, guard: std::sync::MutexGuard<'a, T>) -> MutexGuard<'a, T> {
+        MutexGuard {
+            inner: Some(guard),
+            id: self.id(),
+            tag: std::any::type_name::<T>(),
+        }
+    }
+}
+
+/// Guard returned by [`Mutex::lock`].
+pub struct MutexGuard<'a, T> {
+    inner: Option<std::sync::MutexGuard<'a, T>>,
+    id: usize,
+    tag: &'static str,
+}
+
+impl<T> Deref for MutexGuard<'_, T> {
+    type Target = T;
+    fn deref(&self) -> &T {
+        self.inner.as_ref().expect("guard is live")
+    }
+}
+
+impl<T> DerefMut for MutexGuard<'_, T> {
+    fn deref_mut(&mut self) -> &mut T {
+        self.inner.as_mut().expect("guard is live")
+    }
+}
+
+impl<T> Drop for MutexGuard<'_, T> {
+    fn drop(&mut self) {
+        let panicking = std::thread::panicking();
+        // The real guard goes first: this is what poisons the real mutex during unwinding.
+        drop(self.inner.take());
+        if let Some(sim) = SIM.get() {
+            sim.released(self.id, self.tag, panicking);
+        }
+    }
+}
